@@ -50,6 +50,10 @@ class Module:
         self.src = raw.decode("utf8")
         self.tree = ast.parse(self.src, filename=self.path)
         self.name = os.path.splitext(os.path.basename(rel))[0]
+        self.canon_stats = (0, 0)
+        if os.environ.get("VERIF_NO_CANON") != "1":
+            from . import canon
+            self.canon_stats = canon.canonicalise(self.tree, self.name)
         self.funcs = {}      # qname -> Func
         self.classes = {}    # name -> ClassDef
         self.parents = {}    # id(node) -> parent node
